@@ -506,3 +506,24 @@ def c20_join_without_composite_index(rec, params):
         return False
     both_index = cs['lk']['depth'] and cs['rk']['depth'] and not cs['lk']['cols'] and not cs['rk']['cols']
     return not both_index
+
+
+@classifier
+def c07_bool_in_iterable(rec, params):
+    '''an iterable of Python values mixing Booleans with numbers is handed to NumPy, which casts the Booleans to the numeric dtype (True -> 1 / 1.0);
+    the numbers themselves are stored unchanged.  Pinned by the repository's own test_frame_display_a (Frame.from_records(((1, 2), (True, False))) is int64).'''
+    case, pairs = _c07_pairs(rec)
+    if case.get('site') not in ('from_records', 'series_from_list', 'series_from_list_rev') or rec.get('clause') != 'lossy':
+        return False
+    bad = [(s, t) for s, t in pairs if not _same07(s, t)]
+    def bool_to_number(s, t):
+        if s[0] != 'b':
+            return False
+        inner = t[1] if t[0] == 'c' else t
+        return inner[0] in ('i', 'f') and inner[1] == s[1] and (inner[0] == 'i' or inner[2] == 1)
+    def big_with_bool(s, t):
+        # with a Boolean in the iterable NumPy falls back to float64 for ints beyond int64: the big int becomes the nearest float
+        if s[0] != 'I' or not any(x[0] == 'b' for x, _ in pairs) or any(x[0] in ('f', 'F', 'c') for x, _ in pairs):
+            return False
+        return t[0] == 'I' and float(int(s[1])) == float(int(t[1]))
+    return bool(bad) and all(bool_to_number(s, t) or big_with_bool(s, t) for s, t in bad)
